@@ -280,18 +280,25 @@ func main() {
 	rep.Sample(map[string]interface{}{"direction": "request", "example": "POST /i.php/extra/info with X-Big of 65 478 bytes (encoded pair = 65 500) and a 65 501-byte body"})
 
 	// existing script files in any letter case are never served as static text
-	for _, p := range []string{"/i.php", "/I.PHP", "/i.PhP", "/U.PHP", "/u.php", "/dir/", "/dir/index.php", "/DIR/INDEX.PHP", "/i.php.", "/i.php%20", "/sub/../i.php", "//i.php", "/i.php/", "/scripted/../i.php"} {
+	// (the last three: letters whose lower-case form has another length in UTF-8 - Kelvin sign, dotted capital I, Ⱥ)
+	for _, p := range []string{"/i.php", "/I.PHP", "/i.PhP", "/U.PHP", "/u.php", "/dir/", "/dir/index.php", "/DIR/INDEX.PHP", "/i.php.", "/i.php%20", "/sub/../i.php", "//i.php", "/i.php/", "/scripted/../i.php",
+		"/%E2%84%AA/i.php/info", "/%C4%B0%C4%B0%C4%B0%C4%B0/i.php/info", "/%C8%BA%C8%BA%C8%BA%C8%BA%C8%BA.php"} {
 		for _, m := range []string{"GET", "HEAD", "POST"} {
 			raw := kit.Get(m, p, "a.test:8080", "Content-Length: 0")
 			rq, err := kit.Req(raw)
 			if err != nil {
 				continue
 			}
+			panicsBefore := kit.Log.Panics.Load()
+			newErrLog()
 			rec, pv, _ := kit.ServeReq(srv, rq)
 			rep.Eval(1)
 			if pv != nil {
 				rep.Violation("C13/static-fallback/panic", fmt.Sprint(pv), c13case{raw, "", "", ""})
 				continue
+			}
+			if el := newErrLog(); kit.Log.Panics.Load() != panicsBefore || strings.Contains(el, "[PANIC") {
+				rep.Violation("C13/script-path/panic-in-handler", fmt.Sprintf("%s %s: a [PANIC] line was logged (the handler panicked; only the server's top-level recover contained it)", m, p), c13case{raw, "", "the responder's reply or an error", fmt.Sprintf("%d", rec.Status)})
 			}
 			for f, t := range fileTok {
 				if strings.Contains(rec.Body.String(), t) && strings.HasSuffix(strings.ToLower(f), ".php") {
